@@ -19,6 +19,8 @@ import (
 
 	"github.com/oasisprotocol/oasis-core/go/common/cbor"
 	"github.com/oasisprotocol/oasis-core/go/common/crypto/hash"
+	"github.com/oasisprotocol/oasis-core/go/common/crypto/signature"
+	memorySigner "github.com/oasisprotocol/oasis-core/go/common/crypto/signature/signers/memory"
 	"github.com/oasisprotocol/oasis-core/go/common/logging"
 	"github.com/oasisprotocol/oasis-core/go/consensus/api/transaction"
 	beaconState "github.com/oasisprotocol/oasis-core/go/consensus/cometbft/apps/beacon/state"
@@ -466,6 +468,39 @@ func (d *cnDriver) step() error {
 			}
 		}
 	}
+	if d.rng.Intn(8) == 0 && len(n.vals) > 2 {
+		// a node claims a key another node is registered with (preferably one whose registration has lapsed but is still on
+		// record): refused as a duplicate while that record exists
+		i := d.rng.Intn(len(n.vals))
+		j := d.rng.Intn(len(n.vals))
+		if nodes, ok := d.lastReg["nodes"].([]map[string]any); ok {
+			for _, x := range nodes {
+				var k int
+				if exp, _ := x["exp"].(int64); exp < epochNow && d.rng.Intn(2) == 0 {
+					if _, err := fmt.Sscanf(x["id"].(string), "N%d", &k); err == nil && k < len(n.vals) {
+						j = k
+					}
+				}
+			}
+		}
+		onRecord := false
+		if nodes, ok := d.lastReg["nodes"].([]map[string]any); ok {
+			for _, x := range nodes {
+				onRecord = onRecord || x["id"] == fmt.Sprintf("N%d", j)
+			}
+		}
+		if i != j && i != 1 && j != 1 && onRecord {
+			v := n.vals[i]
+			role := []string{"p2p", "tls", "vrf"}[d.rng.Intn(3)]
+			sp := &cnTxSpec{Kind: "regnode", Signer: v.name, Node: v.name, Rotate: fmt.Sprintf("steal:%s:N%d", role, j), Amount: epochNow + 2,
+				Nonce: uint64(d.acctField(v.name, "n")) + nonceBump[v.name], Gas: 5000, Validity: "stolenkey", Runtimes: d.nodeRts[v.name]}
+			d.pendRts[sp] = sp.Runtimes
+			if raw, err := n.buildTx(sp, d.rng); err == nil {
+				nonceBump[v.name]++
+				metas = append(metas, cnTxMeta{sp, raw})
+			}
+		}
+	}
 	if d.rng.Intn(6) == 0 {
 		// registry transactions without the required authority
 		i := d.rng.Intn(len(n.vals))
@@ -786,6 +821,17 @@ func (d *cnDriver) observe(b *cnBlock, metas []cnTxMeta) cnBlockResult {
 						var idx int
 						fmt.Sscanf(sp.Node, "N%d", &idx)
 						n.vals[idx].rot = cand
+						if parts := strings.Split(sp.Rotate, ":"); len(parts) == 3 && parts[0] == "steal" {
+							// (legitimate only once the other node's record is gone: that node continues with a new key)
+							var j int
+							fmt.Sscanf(parts[2], "N%d", &j)
+							seed := hash.NewFromBytes([]byte(fmt.Sprintf("rekey|%d|%d|%s", n.cfg.Seed, b.Height, sp.Rotate)))
+							if ns, err := memorySigner.NewFromSeed(seed[:]); err == nil {
+								nr := map[string]signature.Signer{"p2p": n.vals[j].rot["p2p"], "vrf": n.vals[j].rot["vrf"], "tls": n.vals[j].rot["tls"]}
+								nr[parts[1]] = ns
+								n.vals[j].rot = nr
+							}
+						}
 					}
 					delete(n.pendingRot, sp)
 				}
